@@ -102,6 +102,7 @@ def Step.filterIdent : Step → Option String
   | .filter (some p) _ _ _ => some p.ident
   | .filter none (some p) _ _ => some p.ident
   | .demux _ _ => some "discard_untrimmed"
+  | .combDemux _ => some "discard_untrimmed"
   | _ => none
 
 /-- `Statistics.filtered` after `collect`: `filtered[name] = step.filtered()` in step order (a later step with the same
